@@ -881,7 +881,9 @@ class PolyhedralTermList(TermList):  # noqa: WPS338
         # 2 : Problem appears to be infeasible.
         # 3 : Problem appears to be unbounded.
         # 4 : Numerical difficulties encountered.
-        if res["status"] == 3:
+        # The solver's presolve can report a feasible problem with an unbounded objective
+        # as infeasible (status 2), so we verify feasibility before trusting that answer.
+        if res["status"] == 3 or (res["status"] == 2 and not self.is_empty()):
             return None
         elif res["status"] == 0:
             fun_val: float = res["fun"]
